@@ -140,6 +140,27 @@ def _normalise_returned_temps(tree: ast.Module) -> None:
         conv(fn.body)
 
 
+def _normalise_nested_ifs(tree: ast.Module) -> None:
+    """`if a:` whose whole body is `if b: X`, no else on either, is `if a and b: X` (short-circuit evaluation keeps the
+    order of the tests).  The merged form is canonical: a statement that follows such a guard then depends on ONE
+    condition `not (a and b)`, which the must-hold facts can express, instead of on two nested branches."""
+    changed = True
+    while changed:
+        changed = False
+        for n in ast.walk(tree):
+            if isinstance(n, ast.If) and not n.orelse and len(n.body) == 1 and isinstance(n.body[0], ast.If) and not n.body[0].orelse \
+                    and not any(isinstance(x, ast.NamedExpr) for x in ast.walk(n.body[0].test)):
+                inner = n.body[0]
+                vals = (list(n.test.values) if isinstance(n.test, ast.BoolOp) and isinstance(n.test.op, ast.And) else [n.test]) + \
+                       (list(inner.test.values) if isinstance(inner.test, ast.BoolOp) and isinstance(inner.test.op, ast.And) else [inner.test])
+                new = ast.BoolOp(op=ast.And(), values=vals)
+                ast.copy_location(new, n.test)
+                new.end_lineno, new.end_col_offset = getattr(inner.test, "end_lineno", None), getattr(inner.test, "end_col_offset", None)
+                n.test = new
+                n.body = inner.body
+                changed = True
+
+
 def _normalise_local_annotations(tree: ast.Module) -> None:
     """Inside function bodies, `x: T = v` is the same statement as `x = v` for every rule
     here: rewrite it to an Assign (the annotation is kept in `.ann`), so that adding or
@@ -314,6 +335,7 @@ class Index:
                 _normalise_local_annotations(tree)
                 _normalise_namespace_aliases(tree)
                 _normalise_returned_temps(tree)
+                _normalise_nested_ifs(tree)
                 if os.environ.get("VT_NO_TRAILING_IF_NORM") != "1":
                     _normalise_trailing_ifs(tree)
                 mi = ModuleInfo(modname, path, os.path.relpath(path, self.root), tree, src)
